@@ -34,7 +34,7 @@ PROPS["C15"] = {
     "trusted": ["external module github.com/vinllen/redis-go-cluster (GetSlot) is modelled by the specification slotSpec and compared on every slot case",
                 "Go: `for i, s := range string` decodes UTF-8 as unicode/utf8.DecodeRuneInString does (transcribed in Model/Slot.lean decodeRune)",
                 "Go: fmt.Sprintf(\"%s-\"), strconv.Itoa, strings.HasPrefix, map lookup semantics"],
-    "assumptions": ["fixes/C15-first-tag.patch is applied (on the pinned tree the check reports the D17 violation with replay `slot 7b617d7b627d`)",
+    "assumptions": ["KeyToSlot as repaired by fix c2d178e (D17; before it the check reported the violation with replay `slot 7b617d7b627d`)",
                     "the suffix loop bound HI is < 255 (a byte loop `i <= 255` never ends)",
                     "findKeyInRange is only exercised with ranges that contain a slot (outside 0<=l<=r<=16383 the real loop never ends); a real search still running after 5 s is reported as a failure"],
 }
